@@ -74,7 +74,7 @@ def s_chars(ex, st, fr, text, args):
     if isinstance(v, Ref):
         v = ex.deref(st, v)
     if isinstance(v, Native) and v.tag == 'symstr':
-        return Native('input', (0,))
+        return Native('input', (v.p[0] if v.p else 0,))
     raise Inconclusive('chars() of %r' % (v,))
 
 
@@ -96,6 +96,31 @@ def s_is_ascii(ex, st, fr, text, args):
     if not terms:
         return S(1, 1)
     return S(1, z3.And(*terms))
+
+
+def s_str_index_from(ex, st, fr, text, args):
+    """<str as Index<RangeFrom<usize>>>::index on the symbolic string: the suffix starting at the character whose byte
+    offset is the (concrete or symbolic) start; panics if that is not a char boundary"""
+    v = args[0]
+    if isinstance(v, Ref):
+        v = ex.deref(st, v)
+    if not (isinstance(v, Native) and v.tag == 'symstr'):
+        raise Inconclusive('str index on %r' % (v,))
+    base = v.p[0] if v.p else 0
+    a = zi(args[1].f[0])
+    chars, ln = st.aux['input']
+    # byte offsets of the characters relative to the start of the string
+    offs = [z3.IntVal(0)]
+    for c in chars:
+        offs.append(offs[-1] + SM.len_utf8_term(c).v if not c.conc() else offs[-1] + SM.len_utf8_term(c).v)
+    branches = []
+    conds = []
+    for j in range(base, len(chars) + 1):
+        cj = z3.And(a == offs[j] - offs[base] + 0 if base == 0 else a == offs[j] - offs[base], zi(ln) >= j)
+        conds.append(cj)
+        branches.append((cj, (lambda jj: (lambda s2: Native('symstr', (jj,))))(j)))
+    branches.append((z3.Not(z3.Or(*conds)), lambda s2: PanicResult('byte index is not a char boundary in str slicing')))
+    return Fork(branches)
 
 
 def s_str_index(ex, st, fr, text, args):
@@ -156,6 +181,7 @@ HARNESS_SUMMARIES = [
     (re.compile(r'core::str::<impl str>::chars$'), s_chars),
     (re.compile(r'core::str::<impl str>::is_ascii$'), s_is_ascii),
     (re.compile(r'^<str as (std::ops::)?Index<(std::ops::)?Range<usize>>>::index$'), s_str_index),
+    (re.compile(r'^<str as (std::ops::)?Index<(std::ops::)?RangeFrom<usize>>>::index$'), s_str_index_from),
     (re.compile(r'(^|::)St::decide$|^rt::<impl at [^>]*>::decide$|St>::decide$'), s_decide),
 ]
 
